@@ -370,6 +370,71 @@ macro_rules! c13_type {
                 });
             }
 
+            // 16-bit types, thorough tier, release profile: all 2^32 operand pairs through every lane
+            // (lane j sees the pair shifted by a lane-specific offset) for the core arithmetic families
+            if BITS == 16 && rep.thorough() && !ovf {
+                rep.sweep(&format!("{TN}/binary/ALL_PAIRS_16(2^32) core arithmetic, rotated through lanes"), 1u64 << 32, |idx, acc| {
+                    let (x, y) = ((idx & 0xFFFF) as u16, (idx >> 16) as u16);
+                    let mut a = [0 as S; N];
+                    let mut b = [0 as S; N];
+                    for j in 0..N {
+                        a[j] = x.wrapping_add((j as u16).wrapping_mul(0x4F1B)) as S;
+                        b[j] = y.wrapping_add((j as u16).wrapping_mul(0x9E37)) as S;
+                    }
+                    let (va, vb) = (T::from_array(a), T::from_array(b));
+                    // every call sees opaque operands: rustc 1.95 at opt-level >= 2 merges `va * vb` with a
+                    // following `va.saturating_mul(vb)` of U16Vec2 into the wrapping product when both are
+                    // inlined into one function (a toolchain miscompilation, absent at opt-level 1 and on
+                    // nightly 1.97; reproduced without this harness' explorer) - see DESIGN 8.4
+                    let bb = std::hint::black_box::<T>;
+                    macro_rules! core {
+                        ($site:literal, $got:expr, $f:expr) => {{
+                            let g: [S; N] = $got.to_array();
+                            let mut ok = true;
+                            for j in 0..N { ok &= g[j] == $f(a[j], b[j]); }
+                            acc.eval(true, g[0] as u64 ^ (g[N - 1] as u64) << 16);
+                            if !ok { acc.fail(&format!("{TN}::{}", $site), format!("a={:?} b={:?} got={:?}", a, b, g)); }
+                        }};
+                    }
+                    core!("add", bb(va) + bb(vb), S::wrapping_add);
+                    core!("sub", bb(va) - bb(vb), S::wrapping_sub);
+                    core!("mul", bb(va) * bb(vb), S::wrapping_mul);
+                    core!("wrapping_add", bb(va).wrapping_add(bb(vb)), S::wrapping_add);
+                    core!("wrapping_sub", bb(va).wrapping_sub(bb(vb)), S::wrapping_sub);
+                    core!("wrapping_mul", bb(va).wrapping_mul(bb(vb)), S::wrapping_mul);
+                    core!("saturating_add", bb(va).saturating_add(bb(vb)), S::saturating_add);
+                    core!("saturating_sub", bb(va).saturating_sub(bb(vb)), S::saturating_sub);
+                    core!("saturating_mul", bb(va).saturating_mul(bb(vb)), S::saturating_mul);
+                    core!("min", bb(va).min(bb(vb)), |p: S, q: S| p.min(q));
+                    core!("max", bb(va).max(bb(vb)), |p: S, q: S| p.max(q));
+                    macro_rules! corec {
+                        ($site:literal, $m:ident) => {{
+                            let g = bb(va).$m(bb(vb)).map(|v| v.to_array());
+                            let mut w = Some([0 as S; N]);
+                            for j in 0..N { match a[j].$m(b[j]) { Some(v) => { if let Some(ww) = &mut w { ww[j] = v; } } None => w = None } }
+                            acc.eval(true, g.is_some() as u64);
+                            if g != w { acc.fail(&format!("{TN}::{}", $site), format!("a={:?} b={:?} got={:?} want={:?}", a, b, g, w)); }
+                        }};
+                    }
+                    corec!("checked_add", checked_add);
+                    corec!("checked_sub", checked_sub);
+                    corec!("checked_mul", checked_mul);
+                    corec!("checked_div", checked_div);
+                    // division family: panics iff some lane divides by zero (or MIN / -1)
+                    let bad = (0..N).any(|j| a[j].checked_div(b[j]).is_none());
+                    if bad {
+                        let r = catch(|| (bb(va) / bb(vb)).to_array());
+                        acc.eval(true, 0xdead);
+                        if r.is_ok() { acc.fail(&format!("{TN}::div"), format!("a={:?} b={:?} did not panic", a, b)); }
+                    } else {
+                        core!("div", bb(va) / bb(vb), |p: S, q: S| p / q);
+                        core!("rem", bb(va) % bb(vb), |p: S, q: S| p % q);
+                        core!("wrapping_div", bb(va).wrapping_div(bb(vb)), S::wrapping_div);
+                        core!("saturating_div", bb(va).saturating_div(bb(vb)), S::saturating_div);
+                    }
+                });
+            }
+
             // ---------------------------------------------------------------- shifts
             {
                 let vals: Vec<S> = int_lattice_small(BITS, signed).into_iter().map(|v| v as S).collect();
